@@ -96,13 +96,25 @@ func C11_NewView() {
 	p := wd.n
 	p.timeout()
 	from := len(p.comm.Out)
+	honestLocked := env.NondetBool("honest_votes_locked")
+	blkA := &stub.Block{H: 1, Tag: 0xA1, ProposalOK: true}
+	honestFirst := env.ParamOr("honest_first", 0) == 1
+	if honestFirst {
+		// the vote of member 3 arrives before the adversarial votes
+		if honestLocked {
+			p.deliver(wd.net.vcm(3, 1, 1, wd.net.prepared(1, 0, blkA, othersOf(0, 3))).ToConsensusRawMessage())
+		} else {
+			p.deliver(wd.net.vcm(3, 1, 1, nil).ToConsensusRawMessage())
+		}
+	}
 	for j := 0; j < sym; j++ {
 		p.deliver(symViewChangeRaw(wd, "av", prepares))
 	}
-	honestLocked := env.NondetBool("honest_votes_locked")
-	blkA := &stub.Block{H: 1, Tag: 0xA1, ProposalOK: true}
 	for _, i := range []int{2, 3} {
-		if hasNewView(p, from) {
+		if hasNewView(p, from) || (honestFirst && i == 3) {
+			if honestFirst && i == 3 {
+				continue
+			}
 			break
 		}
 		if honestLocked {
@@ -118,6 +130,9 @@ func C11_NewView() {
 		}
 	}
 	if nv == nil {
+		// the votes of the two correct members 2 and 3 plus the leader's own reach the quorum (equal weights): they
+		// are counted whatever else the leader was sent in between
+		env.Assert("C11.VC.counted_towards_election", wd.ref.w[0] != wd.ref.w[1] || wd.ref.w[1] != wd.ref.w[2] || wd.ref.w[2] != wd.ref.w[3])
 		env.Reach("C11.NV.not_elected")
 		return
 	}
